@@ -24,7 +24,7 @@ GLOBAL_ASSUMPTIONS = [
     "stand-in contracts of dependencies (revm, alloy-evm, dashmap, parking_lot, std) are assumed: see coverage.trusted_base",
     "machine integers: usize as in Verus' architecture-independent model; U256 as nat < 2^256 through its view",
     "termination of lock-free retry / helping / coordinator loops is not claimed (exec_allows_no_decreases_clause spliced on them)",
-    "extraction rewrites R1..R28 (DESIGN.md §4) preserve run-time behaviour, except R18 (a listed expression or closure body is replaced by an arbitrary value: abstraction, everything proved holds for every value) and R4 (listed logging/metrics/capacity statements dropped); every exec-touching site is listed in coverage.exec_touching_rewrites",
+    "extraction rewrites R1..R29 (DESIGN.md §4) preserve run-time behaviour, except R29 (an `impl IntoIterator` argument is taken as the Vec of its items), R18 (a listed expression or closure body is replaced by an arbitrary value: abstraction, everything proved holds for every value) and R4 (listed logging/metrics/capacity statements dropped); every exec-touching site is listed in coverage.exec_touching_rewrites",
     "derive(Clone)/derive(PartialEq)/derive(Default) of extracted types are structural",
 ]
 
